@@ -1,6 +1,104 @@
 (* C08 — the server answers each call once, in order, on its own connection; oneway gets none.
-   Only pinned statements; proofs are in Server/*Proofs.v. *)
-From ZV Require Import Server.Server Server.ServerExec.
+   Only pinned statements; proofs are in Server/ServerInv.v (per-connection invariant),
+   Server/ServerPairs.v (pairing of writes) and Server/ServerThms.v.
 
-Example C08_nonvacuous : True.
-Proof. exact I. Qed.
+   Vocabulary (Server/ServerSpec.v): [view P c T] = the events of trace T that concern connection c;
+   [chunk P c h] = the transcript a handled call h = (call, the service's answer, items, ended) leaves
+   there: the invocation followed by exactly one reply or error — nothing for a oneway call — or, for
+   a streaming answer, the items in the order the stream yields them; [clean P c E]: script E has no
+   transport fault on c and no listener failure; [input_of P false c E]: the bytes c receives. *)
+From ZV Require Import Server.Server Server.ServerSpec Server.ServerStruct Server.ServerInv
+  Server.ServerPairs Server.ServerThms Server.ServerExamples.
+
+(* For every service, decoder and environment script E — any number of other connections, any
+   interleaving and fragmentation of everybody's traffic, other clients failing in any way — a
+   connection c that sends the frames fs (well-formed, decodable, below the buffer limit) is never
+   dropped, and whenever the executor has polled the server and c is back in the call list, c's view
+   of the trace is: accepted, then for EVERY frame of fs, in order, exactly the transcript of that
+   call.  Consequently what was written to c is the concatenation of the replies (none for oneway
+   calls), and nothing else. *)
+Theorem C08_per_connection_sequential :
+  forall (P : params), (0 < p_step P)%N ->
+  forall (c : nat) (fs : list (list byte)),
+  Forall frame_ok fs -> (forall f, In f fs -> decode P f <> None) ->
+  (N.of_nat (length (wire fs)) < p_limit P)%N ->
+  forall (E : list (eev P)) (s0 : sstate P) (s : sv P) (T : list (tev P)),
+  clean P c E -> input_of P false c E = wire fs ->
+  exec P (E ++ [Poll]) (init_sv P s0) = (s, T) -> stat s = Running ->
+  In c (map cid (conns s)) ->
+  exists hcs : list (hcall P),
+    map (fun h => Some (h_cl h)) hcs = map (decode P) fs /\
+    Forall (complete P) hcs /\
+    view P c T = TAccept c :: flat_map (chunk P c) hcs /\
+    writes P c T = flat_map (resp_writes P) hcs.
+Proof.
+  intros P Hs c fs H1 H2 H3 E s0 s T H4 H5 H6 H7 H8.
+  destruct (connection_view_quiescent P Hs c fs H1 H2 H3 E s0 s T H4 H5 H6 H7 H8) as (hcs & Ha & Hb & Hc).
+  exists hcs. repeat split; auto. now apply writes_of_view.
+Qed.
+Print Assumptions C08_per_connection_sequential.
+
+(* At any moment of any run (no quiescence needed): the calls handled for c so far are a prefix of
+   its frames, in order, each exactly once; only the last one can still be streaming; c has not
+   been dropped. *)
+Theorem C08_prefix_at_any_time :
+  forall (P : params), (0 < p_step P)%N ->
+  forall (c : nat) (fs : list (list byte)),
+  Forall frame_ok fs -> (forall f, In f fs -> decode P f <> None) ->
+  (N.of_nat (length (wire fs)) < p_limit P)%N ->
+  forall (E : list (eev P)) (s0 : sstate P) (s : sv P) (T : list (tev P)),
+  clean P c E -> input_of P false c E = wire fs ->
+  exec P E (init_sv P s0) = (s, T) ->
+  dcount P c T = 0 /\
+  exists done rest hcs,
+    fs = done ++ rest /\ map (fun h => Some (h_cl h)) hcs = map (decode P) done /\
+    Forall (complete P) (removelast hcs) /\
+    (view P c T = [] /\ hcs = [] \/ view P c T = TAccept c :: flat_map (chunk P c) hcs) /\
+    (In c (map cid (conns s)) ->
+     Forall (complete P) hcs /\ view P c T = TAccept c :: flat_map (chunk P c) hcs).
+Proof. exact connection_view. Qed.
+Print Assumptions C08_prefix_at_any_time.
+
+(* No cross talk, for every script (no hypothesis on any client): every write on a connection is
+   immediately preceded by the event it answers on that same connection — the invocation of the
+   service for a non-oneway call read from it, with that very answer, or the yield of that very
+   item by the stream parked with it. *)
+Theorem C08_no_cross_talk :
+  forall (P : params) (E : list (eev P)) (s0 : sstate P) (s : sv P) (T : list (tev P)),
+  exec P E (init_sv P s0) = (s, T) -> paired P None T.
+Proof. exact writes_paired. Qed.
+Print Assumptions C08_no_cross_talk.
+
+(* Index stability: when get_next_call yields index i, the connection that sat at index i before
+   the scan (same name after it) is the one every event of this iteration concerns — the service
+   invocation for the call read from it, the write, a removal by swap_remove or the parking. *)
+Theorem C08_reply_on_winner :
+  forall (P : params) (s : sv P) st s' t i r cs,
+  accq s = [] ->
+  scan_calls P (poll_order (lastc s) (length (conns s))) (conns s) = (Some (i, r), cs) ->
+  iteration P s = (st, s', t) ->
+  exists x0 x, nth_error (conns s) i = Some x0 /\ nth_error cs i = Some x /\ cid x = cid x0 /\
+    (forall e, In e t -> about P e = Some (cid x0)) /\
+    (forall cl, r = Msg (Some cl) -> exists ans t', t = TInvoke (cid x0) cl ans :: t').
+Proof. exact call_iteration_on_winner. Qed.
+Print Assumptions C08_reply_on_winner.
+
+(* Non-vacuity: two connections; connection 1 sends "a1", a oneway call "xo1" and an error call "e1"
+   pipelined in one burst that arrives cut in the middle of a frame, interleaved with connection 0's
+   traffic.  The hypotheses hold and the view of connection 1 is as stated: three calls handled in
+   order, no write for the oneway one. *)
+Example C08_nonvacuous :
+  let fs := [[97;1]; [120;111;1]; [101;1]]%N in
+  let E := [NewConn 0; NewConn 1; Arrive 1 [97;1;0;120]%N; Poll; Arrive 0 [66;0]%N;
+            Arrive 1 [111;1;0;101;1;0]%N] : list (eev ex_params) in
+  Forall frame_ok fs /\ (forall f, In f fs -> decode ex_params f <> None) /\
+  clean ex_params 1 E /\ input_of ex_params false 1 E = wire fs /\
+  let (s, T) := exec ex_params (E ++ [Poll]) (init_sv ex_params tt) in
+  stat s = Running /\ In 1 (map cid (conns s)) /\
+  writes ex_params 1 T = [WSingle [97;1]; WError [101;1]]%N.
+Proof.
+  cbv zeta. split; [repeat constructor; discriminate|]. split.
+  { intros f [<-|[<-|[<-|[]]]]; discriminate. }
+  split; [repeat constructor; discriminate|]. split; [reflexivity|].
+  vm_compute. repeat split; auto.
+Qed.
